@@ -160,7 +160,7 @@ struct Opts {
     /// (defect repaired by f1ffc25: `restore --delete` removed the file but did not create the directory; the random
     /// generator now replaces such directories too)
     rd: bool,
-    /// witness switch: trees with several names of one inode get their rounds WITHOUT damage (defect repaired by c00c383: a
+    /// witness switch: trees with several names of one inode get their rounds WITHOUT damage (defect repaired by 93d1ed9: a
     /// second restore over restored hardlinks failed with `InputOutput`, the link existed already; without the switch such
     /// trees are damaged and restored over like all others)
     hl: bool,
